@@ -10,9 +10,12 @@ package sftp
 import (
 	"bytes"
 	"fmt"
+	"io"
 	"os"
+	"path/filepath"
 	"reflect"
 	"strings"
+	"sync"
 	"testing"
 	"time"
 
@@ -23,7 +26,7 @@ import (
 func TestVerifC06(t *testing.T) {
 	vfMain(t, vfCheck{
 		ID: "C06", Level: "exploration",
-		Rule:        "per unit: seeded logical packets of every type (requests, STATUS/HANDLE/DATA/NAME/ATTRS, INIT/VERSION, statvfs/posix-rename/hardlink/fsync, statvfs reply) with boundary-biased ids, offsets, strings (empty/long/non-UTF-8/NUL), payloads 0..70k, all 32 attribute-flag subsets with 0..5 extended pairs, 0..300 name entries; each is encoded by packet.go (through sendPacket), by filexfer and by the reference codec and decoded by each decoder. A class is (packet type, attr-flag subset, size bucket).",
+		Rule:        "per unit: seeded logical packets of every type (requests, STATUS/HANDLE/DATA/NAME/ATTRS, INIT/VERSION, statvfs/posix-rename/hardlink/fsync, statvfs reply) with boundary-biased ids, offsets, strings (empty/long/non-UTF-8/NUL), payloads 0..70k, all 32 attribute-flag subsets with 0..5 extended pairs, 0..300 name entries; each is encoded by packet.go (through sendPacket), by filexfer and by the reference codec and decoded by each decoder. Plus live streams: real Client sessions against both servers, tapped in both directions; every frame must decode strictly with the reference codec and re-encode to the same bytes. A class is (packet type, attr-flag subset, size bucket).",
 		Assumptions: []string{"the reference codec (harness/common_ref.go, written from the draft and OpenSSH PROTOCOL) is the spec oracle"},
 		Units: func(tier vfTier, seed uint64) int {
 			if tier == vfThorough {
@@ -37,7 +40,7 @@ func TestVerifC06(t *testing.T) {
 			}
 			return 4
 		},
-		Floors: map[string]int64{"packets": 15000, "attr_flag_subsets": 32, "packet_types": 28, "client_decodes": 200},
+		Floors: map[string]int64{"live_frames_checked": 3000, "packets": 15000, "attr_flag_subsets": 32, "packet_types": 28, "client_decodes": 200},
 		Run:    c06Run,
 	})
 }
@@ -734,6 +737,123 @@ func c06Run(u *vfUnit) {
 		}
 	}
 	c06ClientDecode(u)
+	c06LiveStreams(u)
+}
+
+// c06LiveStreams: the bytes the package really puts on the wire. Real sessions (Client against the
+// os-backed server and the request server) are tapped in both directions; every frame must decode
+// strictly with the reference codec (nothing missing, nothing left over inside the frame) and the
+// reference encoding of the decoded packet must be the very same bytes.
+func c06LiveStreams(u *vfUnit) {
+	r := u.Rng.Fork()
+	for _, kind := range []vfKind{vfOS, vfRS} {
+		var store *vfStore
+		root := "/"
+		sc := vfSrvCfg{Kind: kind, Alloc: u.Index%2 == 1}
+		if kind == vfRS {
+			store = vfNewStore()
+			sc.H = store.Handlers(vfHandlerOpt{OpenFile: u.Index%4 < 2, CmdAll: true, ListAll: true})
+		} else {
+			root = filepath.Join(u.TempDir(), "live")
+			os.MkdirAll(root, 0o755)
+		}
+		sess, err := vfConnect(sc, vfPipeOpts{}, MaxPacketUnchecked([]int{100, 1000, 32768}[u.Index%3]))
+		if err != nil {
+			u.Inconclusive("live connect: %v", err)
+			return
+		}
+		var mu sync.Mutex
+		var frs [2]vfFramer
+		var bad []string
+		frames := 0
+		check := func(dir int) func(p []byte) {
+			return func(p []byte) {
+				mu.Lock()
+				defer mu.Unlock()
+				for _, b := range frs[dir].Feed(p) {
+					frames++
+					q, err := vfParse(b, true)
+					name := []string{"client->server", "server->client"}[dir]
+					if err != nil {
+						bad = append(bad, fmt.Sprintf("%s frame does not decode strictly: %v (% x)", name, err, vfTrimB(b, 64)))
+						continue
+					}
+					if enc := q.Body(); !bytes.Equal(enc, b) {
+						bad = append(bad, fmt.Sprintf("%s %s: wire bytes differ from the spec layout of the same packet at byte %d (wire % x / spec % x)", name, q, vfFirstDiff(enc, b), vfTrimB(b, 48), vfTrimB(enc, 48)))
+					}
+				}
+			}
+		}
+		sess.Ctl.Tap(vfC2S, check(0))
+		sess.Ctl.Tap(vfS2C, check(1))
+		c := sess.C
+		j := func(n string) string { return filepath.Join(root, n) }
+		c.Mkdir(j("d"))
+		for _, flags := range []int{os.O_RDWR | os.O_CREATE, os.O_WRONLY | os.O_CREATE | os.O_TRUNC, os.O_RDWR} {
+			if f, err := c.OpenFile(j("d/f"), flags); err == nil {
+				f.Write(r.Bytes(1 + r.Intn(3000)))
+				f.WriteAt(r.Bytes(10), 5)
+				f.Chmod(0o640)
+				f.Truncate(2000)
+				f.Stat()
+				f.Sync()
+				if flags&os.O_RDWR != 0 {
+					// reads that end at, straddle and start beyond the end of the file
+					for _, o := range []int64{0, 1500, 1990, 1999, 2000, 2500} {
+						f.ReadAt(make([]byte, 50+r.Intn(600)), o)
+					}
+				}
+				f.Close()
+			}
+		}
+		if f, err := c.Open(j("d/f")); err == nil {
+			f.ReadAt(make([]byte, 700), 1600)
+			f.Read(make([]byte, 5000))
+			f.Seek(0, io.SeekStart)
+			f.WriteTo(io.Discard)
+			f.Close()
+		}
+		c.Stat(j("d/f"))
+		c.Lstat(j("d/nope"))
+		c.Symlink("f", j("d/l"))
+		c.ReadLink(j("d/l"))
+		c.Link(j("d/f"), j("d/h"))
+		c.Rename(j("d/h"), j("d/h2"))
+		c.PosixRename(j("d/h2"), j("d/h3"))
+		c.Chtimes(j("d/f"), time.Unix(1500000000, 0), time.Unix(1500000001, 0))
+		c.Chown(j("d/f"), 0, 0)
+		c.Truncate(j("d/f"), 10)
+		c.SetExtendedData(j("d/f"), []StatExtended{{"a@b", "1"}, {"c@d", ""}})
+		c.RealPath(j("d/../d/./f"))
+		c.StatVFS(j("d"))
+		for k := 0; k < 5+r.Intn(140); k++ {
+			if f, err := c.Create(j(fmt.Sprintf("d/e%03d", k))); err == nil {
+				f.Close()
+			}
+		}
+		c.ReadDir(j("d"))
+		c.ReadDir(j("nope"))
+		c.Remove(j("d/l"))
+		c.RemoveDirectory(j("d"))
+		c.RemoveAll(j("d"))
+		sess.Ctl.Tap(vfC2S, nil)
+		sess.Ctl.Tap(vfS2C, nil)
+		if msg := sess.Close(); msg != "" {
+			u.Violation("live-session-close", msg, nil)
+		}
+		mu.Lock()
+		u.Count("live_frames_checked", int64(frames))
+		for i, b := range bad {
+			if i < 5 {
+				u.Violation("live-wire-bytes:"+kind.String(), fmt.Sprintf("%v session: %s", kind, b), nil)
+			}
+		}
+		mu.Unlock()
+		if kind == vfOS {
+			vfChmodAll(root)
+			os.RemoveAll(root)
+		}
+	}
 }
 
 // c06ClientDecode: responses that packet.go only encodes are decoded by the real
